@@ -19,12 +19,13 @@ def directLabel : Ev → Option Label
   | .closeret => some .closeRet
   | .cancel => some .cancel
   | .runret => some .runRet
+  | .runerr => some .runErrRet
   | .adv t => some (.advance t)
   | .recv _ => some .consume
   | _ => none
 
 def isDirect : Label → Bool
-  | .runCall | .closeRet | .cancel | .runRet | .advance _ | .consume => true
+  | .runCall | .closeRet | .cancel | .runRet | .runErrRet | .advance _ | .consume => true
   | _ => false
 
 /-! ### every wrapped step is a model step -/
@@ -118,6 +119,9 @@ theorem obsStepL_sound {cfg : Config} {hooks : Bool} {ev : Ev} {d d1 : DState} {
         | none => simp [hs] at h
         | some m' => simp [hs] at h; obtain ⟨rfl, rfl⟩ := h; simp [directLabel, hs])
     | (cases hs : step cfg d.m .runRet with
+        | none => simp [hs] at h
+        | some m' => simp [hs] at h; obtain ⟨rfl, rfl⟩ := h; simp [directLabel, hs])
+    | (cases hs : step cfg d.m .runErrRet with
         | none => simp [hs] at h
         | some m' => simp [hs] at h; obtain ⟨rfl, rfl⟩ := h; simp [directLabel, hs])
     | (rename_i t
@@ -230,7 +234,7 @@ theorem settle_matches {cfg : Config} {hooks : Bool} {d d1 : DState} {ol : Optio
   · next hc =>
     cases h
     simp only [Bool.and_eq_true, beq_iff_eq, quiescent, List.isEmpty_iff] at hc
-    obtain ⟨⟨⟨⟨⟨⟨⟨⟨⟨⟨⟨⟨q, _⟩, _⟩, _⟩, _⟩, _⟩, _⟩, _⟩, _⟩, a⟩, b⟩, c⟩, e⟩ := hc
+    obtain ⟨⟨⟨⟨⟨⟨⟨⟨⟨⟨⟨⟨⟨q, _⟩, _⟩, _⟩, _⟩, _⟩, _⟩, _⟩, _⟩, _⟩, a⟩, b⟩, c⟩, e⟩ := hc
     exact ⟨rfl, a.symm, b.symm, c.symm, e.symm, q⟩
   · cases h
 
